@@ -167,10 +167,11 @@ def r131(ctx, R):
                 rets = [r for r in own_nodes(s.callees[0].node)
                         if isinstance(r, ast.Return)]
                 rn = [src(r.value) for r in rets]
-                ok = all(isinstance(r.value, ast.Tuple) and len(
-                    r.value.elts) == 2 and src(r.value.elts[0]).startswith(
-                        'required') and src(r.value.elts[1]).startswith(
-                            'forbidden') for r in rets) and not \
+                # which position is the forbidden side is decided by
+                # R13.6 (values with a '!' prefix feed position 1, and the
+                # plural normalisers accumulate position-wise)
+                ok = _returned_sides(s.callees[0]) is not None and \
+                    s.callees[0].qbase in PARSERS and not \
                     keys[0].startswith('forbidden') and keys[1].startswith(
                         'forbidden')
             R.ob('R13.1', 'pair-order:%s' % keys[0], ok,
